@@ -109,6 +109,12 @@ add("C19", True, "E2-enum", "exploration",
     "One injection per run. The six-state dispatch of SecureDiscovery::participant_stateless_message_read is mirrored in the harness (trusted). One known finding is listed (a replier that accepted a non-genuine request cannot restart). Dropping the optional hash_c1/hash_c2 aids is not counted as altering content.",
     "5.19")
 
+add("C18", True, "E2-enum", "exploration",
+    "bounded-exhaustive enumeration of permissions documents x governance documents x queries from a grammar bound, real XML parsers and real check_create_* / check_remote_* entry points against a reference evaluator with its own file-name pattern matcher; every single-byte alteration of signed fixture documents",
+    "Permissions: every grant with one rule from {allow, deny} x 6 domain sets (value, list, range, open ranges) x {publish, subscribe, both, relay} x 7 topic patterns (thorough 11: *, prefix, ?, character classes incl. negated and ranges, literal, with '/'), every ordered pair of rules from a smaller alphabet (thorough also triples), both defaults; documents whose first grant is for another subject / expired / not yet valid / denying, followed by a second grant, or alone (no valid grant). Governance: topic-rule lists (no matching rule, the four read/write access-control combinations, both orders of an overlapping pair, character classes) and domain-rule lists (single value, open range, list, first match of two). About 6 000 x 12 document pairs (thorough 32 000 x 12) are rendered to XML, parsed by the real parsers, installed in a real AccessControlBuiltin and queried for domains {0,1,2} x 7 topic names x {writer, reader, topic} through check_create_* and check_remote_* (incl. the relay_only flag); the partition dimension, which the entry points do not pass on, through Grant::check_action. Signatures: the untouched fixture documents verify against the Permissions CA and yield exactly their content, never against another CA, documents signed by another CA never verify, and every byte position x {xor 0x01, delete} (thorough: xor 0x01/0x20/0x80, delete, duplicate; 5 documents) either fails verification or yields byte-identical content.",
+    "Exhaustive over the stated grammar only. Either answer is accepted for entity kind topic when exactly one of read/write access control is on and no permission settles it, and for queries without partitions against rules with partition expressions (the statement leaves both open). Built with cargo feature security.",
+    "5.18")
+
 NOT_YET = {}
 
 def main():
